@@ -120,11 +120,31 @@ def tmpl_words_unicode(r, lines):
     return steps
 
 
+def tmpl_reload(r, lines):
+    # selections survive query changes and are dropped on reload (so are exclusions); the query and the cursor stay
+    steps = []
+    for _ in range(r.randint(1, 3)):
+        steps.append([('toggle', None), (r.choice(['up', 'down']), None)])
+    if r.random() < 0.5:
+        steps.append([('change-query', r.choice(['a', 'o', 'e', 'b']))])
+    if r.random() < 0.3:
+        steps.append([('exclude', None)])
+    steps.append([('reload', None)])
+    steps.append([r.choice([('toggle', None), ('down', None), ('up', None), ('select-all', None), ('clear-query', None)])])
+    if r.random() < 0.4:
+        steps.append([('toggle', None), ('up', None)])
+        steps.append([('reload', None)])
+    steps.append([(r.choice(['accept', 'accept', 'accept-non-empty']), None)])
+    return steps
+
+
 def tmpl_accept_nth(r, lines):
     # --accept-nth with ranges whose bounds fall on, before and after the ends of the record
     steps = [[(r.choice(['down', 'up', 'last', 'first']), None)] for _ in range(r.randint(0, 2))]
     for _ in range(r.randint(0, 3)):
         steps.append([('toggle', None), (r.choice(['up', 'down']), None)])
+    if _ANTH_K % 3 == 2:
+        steps.append([('select-all', None)])        # records of every field count are printed
     steps.append([('accept', None)])
     return steps
 
@@ -249,6 +269,7 @@ def gen_session(r, tier, force=None):
                 rows=r.choice([5, 6, 8, 12, 24]), cols=r.choice([40, 60, 80]), tac=int(r.random() < 0.2), nosort=int(r.random() < 0.15),
                 printq=int(r.random() < 0.25), exact=int(r.random() < 0.15), track=int(r.random() < 0.2), noinput=int(r.random() < 0.08))
     opts['anth'] = r.choice(ANTH) if r.random() < 0.2 else '_'
+    opts['print0'] = int(r.random() < 0.15)
     opts['expect'] = r.choice(['ctrl-x', 'ctrl-x,f2', 'alt-m,ctrl-x']) if r.random() < 0.2 else '_'
     nsteps = r.randint(3, 30 if tier == 'quick' else 120)
     steps = []
@@ -264,16 +285,25 @@ def gen_session(r, tier, force=None):
             global _ANTH_K
             _ANTH_K += 1
             # in turn: a template with the delimiter given after it, a range over AWK fields, anything
-            opts['anth'] = r.choice(ANTH_T[:3] + ANTH_T[4:]) if _ANTH_K % 3 == 1 else r.choice(ANTH) if _ANTH_K % 3 == 2 else r.choice(ANTH + ANTH_T)
+            edge = ['..-2', '..-3', '2..-2', '-3..-2', '..-4', '2..-4']   # an end exactly one before the first field for some record
+            opts['anth'] = (r.choice(ANTH_T[:3] + ANTH_T[4:]) if _ANTH_K % 3 == 1 else edge[(_ANTH_K // 3) % len(edge)] if _ANTH_K % 3 == 2
+                            else r.choice(ANTH + ANTH_T))
             if _ANTH_K % 3 == 1 or (_ANTH_K % 3 == 0 and r.random() < 0.5):
                 # a literal delimiter, given after --accept-nth on the command line as often as before it
                 opts['dl'], opts['dlfirst'] = '44', int(_ANTH_K % 3 != 1 and r.random() < 0.4)
                 lines = ['a,b,c'] + [r.choice(CSV) for _ in range(r.randint(1, 5))]
+            elif _ANTH_K % 3 == 2:
+                lines = ['solo', 'alpha beta', 'one two three', 'a b c d']      # every field count; all of them get printed
+                opts['multi'] = 1000
             else:
                 lines = [r.choice(FIELDS) for _ in range(r.randint(1, 6))]
             opts['noinput'], opts['tac'] = 0, 0
         if tmpl is tmpl_words_unicode:
             opts['noinput'] = 0
+        if tmpl is tmpl_reload:
+            opts['noinput'], opts['track'], opts['tac'] = 0, 0, 0
+            if len(lines) < 4:
+                lines += [r.choice(WORDS) for _ in range(5)]
         if tmpl is tmpl_track:
             opts['track'] = 1
             if len(lines) < 5:
@@ -296,7 +326,7 @@ def gen_session(r, tier, force=None):
             opts['tac'], opts['nosort'] = 0, 0
             if opts['multi'] < 3:
                 opts['multi'] = r.choice([3, 1000])
-        if tmpl in (tmpl_exclude_keeps, tmpl_selection, tmpl_pick_then_all, tmpl_kill_line, tmpl_empty_accept, tmpl_accept_nth):
+        if tmpl in (tmpl_exclude_keeps, tmpl_selection, tmpl_pick_then_all, tmpl_kill_line, tmpl_empty_accept, tmpl_accept_nth, tmpl_reload):
             # these templates pick items by their position in the unfiltered list
             opts['noinput'] = 0
             steps = tmpl(r, lines) + steps[:r.randint(0, 3)]
@@ -329,6 +359,8 @@ def session_args(o):
         a.append('--no-sort')
     if o['printq']:
         a.append('--print-query')
+    if o.get('print0'):
+        a.append('--print0')
     if o['exact']:
         a.append('--exact')
     if o.get('track'):
@@ -370,12 +402,18 @@ def run_session(fzf, tmp, sc, keep_screens=False):
                 done_steps.append(step)
                 obs.append(None)
                 break
-            if not s.post('+'.join(fzf_action(a) for a in step)):
+            has_reload = any(a[0] == 'reload' for a in step)
+            if not s.post('+'.join("reload(cat '%s')" % s.inp if a[0] == 'reload' else fzf_action(a) for a in step)):
                 hung = not os.path.exists(s.rc)
                 if hung:
                     break
             done_steps.append(step)
-            st = s.settle()
+            if has_reload:
+                # the new stream is read by a new process: wait until it has been taken in completely
+                time.sleep(0.3)
+                st = s.settle(tries=200, want=lambda c: not c.get('reading') and c['totalCount'] == len(lines))
+            else:
+                st = s.settle()
             if st is None:
                 # the session ended (accept / abort / …)
                 obs.append(None)
@@ -417,7 +455,7 @@ def drv_sessions(tier, seed, ctx):
     r = random.Random(seed * 104729 + 7)
     # every directed template is used by at least three sessions of any run
     tm = [tmpl_selection, tmpl_kill_ring, tmpl_burst, tmpl_track, tmpl_exclude_keeps, tmpl_hidden_input, tmpl_kill_line, tmpl_empty_accept,
-          tmpl_pick_then_all, tmpl_words_unicode, tmpl_accept_nth, tmpl_accept_nth]
+          tmpl_pick_then_all, tmpl_words_unicode, tmpl_accept_nth, tmpl_accept_nth, tmpl_reload]
     scs = [gen_session(r, tier, force=tm[i % len(tm)] if i < 3 * len(tm) else None) for i in range(max(n, 3 * len(tm) + 16))]
     notes = []
 
